@@ -396,15 +396,9 @@ def runChunks (aggs : List AggExpr) (sts : List St) (chunks : List (List Row)) :
 def simpleAgg (aggs : List AggExpr) (chunks : List (List Row)) : List AVal :=
   (runChunks aggs (initAll aggs) chunks).map St.finalize
 
-/-- `GroupKey::from_row`: `GroupKeyPart` has no float variant: a float key is stored as `Int64(f.to_bits() as i64)` and
-comes back out of `to_values` as that integer -/
-def asI64 (bits : Nat) : Int := if bits < 2 ^ 63 then (bits : Int) else (bits : Int) - 2 ^ 64
-
-def keyPart : Val → Val
-  | .float b => .int (asI64 b)
-  | v => v
-
-def keyOf (groupCols : List Nat) (row : Row) : List Val := groupCols.map (fun c => keyPart (row.getD c .null))
+/-- `GroupKey::from_row`: every kind of value has its `GroupKeyPart` (a float by its bit pattern), and
+`to_values` returns the value itself -/
+def keyOf (groupCols : List Nat) (row : Row) : List Val := groupCols.map (fun c => row.getD c .null)
 
 abbrev Groups := List (List Val × List St)
 
@@ -519,6 +513,19 @@ def specMax : List Val → Option Val
     | none => some v
     | some m => if specLt v m then some m else some v
 
+def isNaNVal : Val → Bool
+  | .float b => isNaN b
+  | _ => false
+
+/-- `min` / `max` must return an extremum of the value order. The specification does not choose
+among different values that rank the same (5 and 5.0, 0.0 and -0.0), and says nothing when a NaN is
+among the inputs. -/
+def minMaxOpen (m : Option Val) (vs : List Val) : Bool :=
+  vs.any isNaNVal ||
+  (match m with
+   | some m => vs.any (fun x => x != m && !specLt m x && !specLt x m)
+   | none => false)
+
 /-- the exact mean `s / n` as a double -/
 def meanF64 (s : Int) (n : Nat) : Nat := roundQ (decide (s < 0)) s.natAbs n
 
@@ -538,8 +545,8 @@ def specAgg (fn : AggFn) (distinct : Bool) (input : List Val) : SRes :=
     else if !vs.all (fun v => isInt v || isFloat v) then .err "type"
     else if !vs.all isNum then .any
     else .ok (.float (roundQ (decide (scaledSum vs < 0)) (scaledSum vs).natAbs (vs.length * 2 ^ 1074)))
-  | .min => .ok (ofVal ((specMin vs).getD .null))
-  | .max => .ok (ofVal ((specMax vs).getD .null))
+  | .min => if minMaxOpen (specMin vs) vs then .any else .ok (ofVal ((specMin vs).getD .null))
+  | .max => if minMaxOpen (specMax vs) vs then .any else .ok (ofVal ((specMax vs).getD .null))
   | .collect => .ok (.list vs)
 
 /-! ## aggregate queries (GQL / Cypher `RETURN key…, agg(…)…`) -/
